@@ -164,9 +164,12 @@ package keeper
 //@   mode value
 //@   modifies pos.proposer, pos.proposerset
 //@   ensures pos.proposer == address && pos.proposerset
+// NB: when nothing is queued the real function returns the zero sdk.Dec{} whose big.Int is nil - any arithmetic on it
+// panics (BurnValidator does exactly that on first use). The value-mode Dec has no nil state, so the contract says
+// nothing about `coins` in that case.
 //@ assumed func (k Keeper) getValidatorBurn(ctx sdk.Ctx, address sdk.Address) (coins sdk.Dec, found bool)
 //@   mode value
-//@   ensures val(coins) == pos.burns[address]
+//@   ensures found == pos.burnq[address] && (found ==> val(coins) == pos.burns[address])
 //@ assumed func (k Keeper) setValidatorBurn(ctx sdk.Ctx, amount sdk.Dec, address sdk.Address)
 //@   mode value
 //@   modifies pos.burns[address], pos.burnq[address]
@@ -401,12 +404,13 @@ package keeper
 //@   ensures [stillbacked] amt(auth.bal[modaddr("staked_tokens_pool")], pp_denom) >= pos.stakesum
 //@   ensures [burnt] err == nil ==> amt(old(auth.supply), pp_denom) - amt(auth.supply, pp_denom) == old(val(pos.vals[address].StakedTokens)) - val(pos.vals[address].StakedTokens)
 //@
-// C07: queued burn severities accumulate per address
+// C07: queued burn severities accumulate per address (a statement about calls that return: with nothing queued yet the
+// real code panics on the nil Dec returned by getValidatorBurn - see DESIGN.md par. 7)
 //@ func (k Keeper) BurnValidator(ctx sdk.Ctx, address sdk.Address, severityPercentage sdk.Dec)
 //@   props C07
 //@   uses burninv
 //@   modifies pos.burns[address], pos.burnq[address]
-//@   ensures pos.burns[address] == old(pos.burns[address]) + val(severityPercentage) && pos.burnq[address]
+//@   ensures pos.burnq[address] && (old(pos.burnq[address]) ==> pos.burns[address] == old(pos.burns[address]) + val(severityPercentage))
 //@
 // C07/C04: at BeginBlock every queued burn is applied once as a slash of the validator's current consensus power and the
 // queue is emptied; only the staked pool and the supply lose tokens, by the same amount, and the pool keeps backing the stake.
